@@ -340,3 +340,175 @@ def mon_intersect_voronoi(rng, tier):
             if not (np.all(w >= 0) and abs(w.sum() - 1) < 1e-12 and np.allclose(w, np.array(cnt) / len(xy), atol=1e-12)):
                 res.fail('voronoi weights %s, expected %s' % (w.tolist(), [c / len(xy) for c in cnt]), dict(nrows=nr, ncols=nc, flowdir=fd, cells=cells, points=pts))
     return res
+
+
+# =============================================================================================== C07 through the Grid API
+def mon_grid_api(rng, tier):
+    from hydrodiy.gis.grid import Grid
+    quick = tier == 'quick'
+    res = Result('C07 Grid.coord2cell / cell2coord / cell2rowcol / neighbours through the python API: numbering row by row from the top-left corner, centres, footprint -> cell, outside -> -1, '
+                 'symmetric mirrored neighbours, invalid cell numbers flagged', '%d grid geometries (1x1 .. 9x7, cell sizes 1e-4 .. 1e4, origins up to 1e4 cell sizes from zero) x all cells x footprint / outside points' % (40 if quick else 400))
+    for it in range(40 if quick else 400):
+        nr = rng.choice([1, 1, 2, 3, 5, 9]); nc = rng.choice([1, 2, 2, 4, 7])
+        csz = rng.choice([1e-4, 0.05, 0.25, 1.0, 3.0, 250.0, 1e4])
+        xll = rng.choice([0.0, 1.0, -3.5, 147.25, -9999.0, 1e4]) * csz if rng.random() < 0.7 else rng.uniform(-1e4, 1e4) * csz
+        yll = rng.choice([0.0, 2.0, -0.5, -35.75, 9999.0]) * csz if rng.random() < 0.7 else rng.uniform(-1e4, 1e4) * csz
+        g = Grid('g', ncols=nc, nrows=nr, cellsize=csz, xllcorner=xll, yllcorner=yll)
+        n = nr * nc
+        res.case((nr, nc, csz, xll, yll))
+        desc = dict(nrows=nr, ncols=nc, cellsize=repr(csz), xllcorner=repr(xll), yllcorner=repr(yll))
+        cells = np.arange(n)
+        xy = g.cell2coord(cells); rcs = g.cell2rowcol(cells)
+        ok = True; why = ''
+        for c in range(n):
+            r, q = divmod(c, nc)
+            ex = xll + (q + 0.5) * csz; ey = yll + (nr - 1 - r + 0.5) * csz
+            tol = 1e-9 * max(abs(ex), abs(ey), csz)
+            if abs(xy[c, 0] - ex) > tol or abs(xy[c, 1] - ey) > tol:
+                ok = False; why = 'cell2coord(%d) = %r, centre is (%r, %r)' % (c, xy[c].tolist(), ex, ey); break
+            if tuple(rcs[c]) != (r, q):
+                ok = False; why = 'cell2rowcol(%d) = %r, expected (%d, %d)' % (c, rcs[c].tolist(), r, q); break
+        if ok:
+            back = g.coord2cell(xy)
+            if back.tolist() != cells.tolist():
+                ok = False; why = 'coord2cell(cell2coord(c)) != c: %r' % back.tolist()[:12]
+        if ok:
+            # points inside each footprint, away from the edges by 1e-3 of a cell
+            pts = []; exp = []
+            for c in range(n):
+                r, q = divmod(c, nc)
+                for fx, fy in ((0.001, 0.001), (0.999, 0.001), (0.5, 0.999), (0.25, 0.75)):
+                    pts.append([xll + (q + fx) * csz, yll + (nr - 1 - r + fy) * csz]); exp.append(c)
+            # outside on the four sides and diagonals, just outside to far away
+            for d in (1e-3, 0.5, 1.0, 7.3, 1e5):
+                for (sx, sy) in ((-1, 0), (1, 0), (0, -1), (0, 1), (-1, -1), (1, 1), (-1, 1), (1, -1)):
+                    px = xll - d * csz if sx < 0 else xll + (nc + d) * csz if sx > 0 else xll + 0.5 * nc * csz
+                    py = yll - d * csz if sy < 0 else yll + (nr + d) * csz if sy > 0 else yll + 0.5 * nr * csz
+                    pts.append([px, py]); exp.append(-1)
+            got = g.coord2cell(np.array(pts))
+            # a footprint point closer to an edge than rounding allows is skipped (1e-9 relative rule of the property)
+            for k, (p, e, o) in enumerate(zip(pts, exp, got)):
+                if e != o:
+                    if e >= 0 and 0.001 * csz < 1e-9 * max(abs(p[0]), abs(p[1])) * 4:
+                        continue
+                    if e < 0 and k >= 4 * n and (k - 4 * n) // 8 == 0 and 1e-3 * csz < 1e-9 * max(abs(p[0]), abs(p[1]), abs(xll), abs(yll)) * 4:
+                        continue
+                    ok = False; why = 'coord2cell(%r) = %d, expected %d' % (p, int(o), e); break
+        if ok:
+            for c in range(n):
+                nb = g.neighbours(c)
+                r, q = divmod(c, nc)
+                slots = [(-1, -1), (-1, 0), (-1, 1), (0, -1), (0, 0), (0, 1), (1, -1), (1, 0), (1, 1)]
+                exp = [(r + dr) * nc + (q + dq) if 0 <= r + dr < nr and 0 <= q + dq < nc and (dr, dq) != (0, 0) else -1 for dr, dq in slots]      # the centre slot is not a neighbour
+                if len(nb) == 9 and nb.tolist() != exp:
+                    ok = False; why = 'neighbours(%d) = %r, expected %r' % (c, nb.tolist(), exp); break
+                for k, m in enumerate(nb.tolist()):
+                    if m >= 0 and m != c and g.neighbours(m)[8 - k] != c:
+                        ok = False; why = 'neighbour relation not symmetric / mirrored between %d and %d' % (c, m); break
+                if not ok:
+                    break
+        if ok:
+            for badc in (-1, n, n + 7, -2 ** 40, 2 ** 40):
+                flagged = False
+                try:
+                    v = g.cell2coord([badc]); flagged = bool(np.all(np.isnan(v)))
+                except ValueError:
+                    flagged = True
+                try:
+                    v2 = g.cell2rowcol([badc]); f2 = bool(np.all(v2 < 0))
+                except ValueError:
+                    f2 = True
+                try:
+                    v3 = g.neighbours(badc); f3 = bool(np.all(v3 < 0))
+                except ValueError:
+                    f3 = True
+                if not (flagged and f2 and f3):
+                    ok = False; why = 'invalid cell number %d is mapped to a cell (coord flagged %s, rowcol %s, neighbours %s)' % (badc, flagged, f2, f3); break
+        if not ok:
+            res.fail(why, desc)
+    return res
+
+
+# =============================================================================================== C15 through the python API
+def _evenodd(poly, x, y):
+    """even-odd rule with the half-open crossing convention, exact rational arithmetic"""
+    from fractions import Fraction as Fr
+    n = len(poly); ins = False
+    for i in range(n):
+        x1, y1 = poly[i]; x2, y2 = poly[(i + 1) % n]
+        if (y1 > y) != (y2 > y):
+            xi = Fr(x1) + (Fr(y) - Fr(y1)) * (Fr(x2) - Fr(x1)) / (Fr(y2) - Fr(y1))
+            if Fr(x) < xi:
+                ins = not ins
+    return ins
+
+
+def _dist2seg(px, py, a, b):
+    ax, ay = a; bx, by = b
+    dx, dy = bx - ax, by - ay
+    L = dx * dx + dy * dy
+    t = 0.0 if L == 0 else max(0.0, min(1.0, ((px - ax) * dx + (py - ay) * dy) / L))
+    return math.hypot(px - (ax + t * dx), py - (ay + t * dy))
+
+
+def mon_polygon_api(rng, tier):
+    from hydrodiy.gis import gutils
+    from hydrodiy.gis.grid import Grid
+    quick = tier == 'quick'
+    res = Result('C15 points_inside_polygon / cells_inside_polygon through the python API == even-odd rule (exact rational oracle); unchanged by rotating / reversing / closing the vertex list and by translating / scaling',
+                 '%d polygons (lattice with horizontal / vertical / collinear edges and repeated vertices, star-shaped, random self-intersecting) x 40 points incl. level with vertices, distance > 1e-6 x size from every edge' % (60 if quick else 600))
+    for it in range(60 if quick else 600):
+        kind = rng.choice(['lattice', 'star', 'random', 'lattice'])
+        nv = rng.randint(3, 9)
+        if kind == 'lattice':
+            poly = [(float(rng.randint(0, 5)), float(rng.randint(0, 5))) for _ in range(nv)]
+            if rng.random() < 0.3:
+                poly.insert(rng.randrange(len(poly)), poly[rng.randrange(len(poly))])
+        elif kind == 'star':
+            poly = []
+            for k in range(nv):
+                a = 2 * math.pi * k / nv; rad = rng.choice([1.0, 2.5, 0.5])
+                poly.append((round(3 + rad * math.cos(a), 3), round(3 + rad * math.sin(a), 3)))
+        else:
+            poly = [(round(rng.uniform(0, 6), 2), round(rng.uniform(0, 6), 2)) for _ in range(nv)]
+        if len(set(poly)) < 3:
+            continue
+        size = max(max(p[0] for p in poly) - min(p[0] for p in poly), max(p[1] for p in poly) - min(p[1] for p in poly))
+        if size == 0:
+            continue
+        pts = []
+        for _ in range(40):
+            if rng.random() < 0.4:
+                v = rng.choice(poly); p = (v[0] + rng.choice([-1.5, -0.5, 0.5, 0.25, 2.0]), v[1])       # level with a vertex
+            elif rng.random() < 0.5:
+                p = (rng.randint(-1, 6) + 0.5, rng.randint(-1, 6) + 0.5)
+            else:
+                p = (round(rng.uniform(-1, 7), 3), round(rng.uniform(-1, 7), 3))
+            if min(_dist2seg(p[0], p[1], poly[i], poly[(i + 1) % len(poly)]) for i in range(len(poly))) > 1e-6 * size * 1000:
+                pts.append(p)
+        if not pts:
+            continue
+        res.case((tuple(poly), tuple(pts)))
+        exp = [1 if _evenodd(poly, x, y) else 0 for x, y in pts]
+        P = np.array(poly); Q = np.array(pts)
+        variants = [('as given', P, Q)]
+        k = rng.randrange(len(poly))
+        variants.append(('rotated', np.array(poly[k:] + poly[:k]), Q))
+        variants.append(('reversed', P[::-1].copy(), Q))
+        variants.append(('closed', np.array(poly + [poly[0]]), Q))
+        variants.append(('translated', P + np.array([16.0, -8.0]), Q + np.array([16.0, -8.0])))
+        variants.append(('scaled', P * 4.0, Q * 4.0))
+        for nm, pp, qq in variants:
+            got = quiet(gutils.points_inside_polygon, qq, pp)
+            if got.tolist() != exp:
+                res.fail('points_inside_polygon (%s vertex list) = %r, even-odd rule gives %r' % (nm, got.tolist(), exp), dict(polygon=poly, points=pts, variant=nm)); break
+        else:
+            g = Grid('g', ncols=8, nrows=8, cellsize=1.0, xllcorner=-1.0, yllcorner=-1.0)
+            cxy = g.cell2coord(np.arange(64))
+            far = [c for c in range(64) if min(_dist2seg(cxy[c, 0], cxy[c, 1], poly[i], poly[(i + 1) % len(poly)]) for i in range(len(poly))) > 1e-3]
+            if len(far) == 64:
+                ci = quiet(g.cells_inside_polygon, P)
+                expc = [c for c in range(64) if _evenodd(poly, float(cxy[c, 0]), float(cxy[c, 1]))]
+                if sorted(int(c) for c in ci['cell']) != expc:
+                    res.fail('cells_inside_polygon returns %r, cells whose centres are inside are %r' % (sorted(int(c) for c in ci['cell']), expc), dict(polygon=poly))
+    return res
